@@ -252,12 +252,13 @@ func (ex *Exec) preserveLocals(fr *Frame, pc Term, old, cur State, keys map[stri
 				if !keys[lf.key] {
 					continue
 				}
-				ov, ok1 := old.m[lf.key]
-				nv, ok2 := cur.m[lf.key]
-				if !ok1 {
-					ov, ok1 = ex.initKey[lf.key]
+				if _, touched := cur.m[lf.key]; !touched {
+					continue
 				}
-				if !ok1 || !ok2 || ov.S == nv.S {
+				aso := arraySort(SRef, lf.so)
+				ov := ex.get(old, lf.key, aso)
+				nv := ex.get(cur, lf.key, aso)
+				if ov.S == nv.S {
 					continue
 				}
 				addr := T(lf.addr(a.Ref.S), SRef)
